@@ -122,9 +122,9 @@ def root_module(text, nslots=2, only=(), report=True, prune=False):
 CAND_RE = re.compile(r'<<\s*"CANDIDATE",\s*"([^"]+)",\s*(\d+),\s*"([^"]+)",\s*(\d+),\s*\{([^}]*)\}\s*>>')
 
 
-def tlc_candidates(ctx, text, name, nslots=2, prune=False, timeout=600, workers=4):
+def tlc_candidates(ctx, text, name, nslots=2, prune=False, timeout=600, workers=4, only=()):
     r = ctx.tlc("LocksOps", cfg="Locks.cfg", workers=workers, timeout=timeout, deadlock=False, name=name,
-                files={"LocksOps.tla": root_module(text, nslots=nslots, report=True, prune=prune)},
+                files={"LocksOps.tla": root_module(text, nslots=nslots, report=True, prune=prune, only=only)},
                 jvm=["-Djava.io.tmpdir=" + ctx.sub("jtmp")])
     if not r.ok:
         raise vlib.Inconclusive("TLC failed on the lock model (%s): rc=%s violated=%s\n%s" % (
@@ -404,13 +404,24 @@ def run(ctx):
     ctx.cov["overlapping_pairs_model_checked"] = npairs
     ctx.log("TLC pairs: %d initial pairs, %d distinct states, %d candidate section pairs" % (npairs, r.distinct, len(cands)))
     if not quick:
-        c3, r3, n3 = tlc_candidates(ctx, text, "tlc-triples", nslots=3, prune=True, timeout=1500, workers=8)
+        # Triples.  A third goroutine can only block the other two, so triples cannot
+        # add a conflicting section pair; they are run as a cross-check of the lock
+        # semantics on a seeded subset of the operations (all triples of all 100
+        # operations are 23 million states / 17 minutes).
+        rng3 = random.Random(ctx.seed)
+        core = [n for n in ("FSM.Apply", "FSM.Restore", "FSM.Snapshot", "robustSnapshot.Persist") if n in model.by_name]
+        rest = [o["name"] for o in model.ops if o["name"] not in core and o["steps"]]
+        rng3.shuffle(rest)
+        sub = core + rest[:12]
+        only = sorted(model.by_name[n]["index"] for n in sub)
+        c3, r3, n3 = tlc_candidates(ctx, text, "tlc-triples", nslots=3, prune=True, timeout=1200, workers=8, only=only)
         ctx.cov["triples_model_checked"] = n3
-        ctx.log("TLC triples: %d initial triples, %d distinct states, %d candidate lines" % (n3, r3.distinct, len(c3)))
+        ctx.cov["triples_operations"] = sub
+        ctx.log("TLC triples over %d operations: %d initial triples, %d distinct states, %d candidate lines" % (len(sub), n3, r3.distinct, len(c3)))
         known = {(c["a"], c["sa"], c["b"], c["sb"]) for c in cands} | {(c["b"], c["sb"], c["a"], c["sa"]) for c in cands}
         extra = [c for c in c3 if (c["a"], c["sa"], c["b"], c["sb"]) not in known]
         if extra:
-            # cannot happen (a third goroutine only blocks); if it does the model is broken
+            # cannot happen; if it does the model is broken
             raise vlib.Inconclusive("triples produced a section pair the pairs run did not: %r" % extra[:3])
     ctx.cov["candidates"] = len(cands)
     cand_pairs = sorted({(c["a"], c["b"]) for c in cands})
@@ -435,6 +446,7 @@ def run(ctx):
     mut_src = selftest_model(ctx, binp)
 
     # ---- harness
+    ctx.log("building the race harness")
     hbin = build_harness(ctx, "tree")
     jobs = []
     jid = 0
@@ -457,16 +469,17 @@ def run(ctx):
         add(rp["job"]["a"], rp["job"]["b"], 3000, "replay")
     else:
         for a, b in cand_pairs:
-            add(a, b, 240 if quick else 1500, "candidate")
+            add(a, b, 400 if quick else 2000, "candidate")
         allp = [p for p in model.pairs() if p not in set(cand_pairs)]
         rng = random.Random(ctx.seed)
         rng.shuffle(allp)
         if quick:
-            allp = allp[:400]
+            allp = allp[:700]
         for a, b in allp:
-            add(a, b, 12 if quick else 40, "sweep")
+            add(a, b, 30 if quick else 60, "sweep")
     ctx.cov["jobs_candidate"] = sum(1 for j in jobs if j["kind"] == "candidate")
     ctx.cov["jobs_sweep"] = sum(1 for j in jobs if j["kind"] == "sweep")
+    ctx.log("running %d jobs under the race detector" % len(jobs))
     out = run_jobs(ctx, hbin, jobs, "main", nproc=4 if quick else 6, timeout=900 if quick else 2400)
     ran = len(re.findall(r"VERIF-JOB-END ", out))
     nodrv = sorted(set(re.findall(r"VERIF-JOB-NODRIVER \d+ (\S+ \S+)", out)))
